@@ -27,6 +27,7 @@ struct Session {
     read_timeout_us: Option<u64>,
     delivered: u64,
     eof_returns: u32,
+    idle_timeouts: u32,
 }
 
 struct Sim {
@@ -39,13 +40,27 @@ struct Sim {
     next_event: usize,
     iter: u64,
     coalesce_i: usize,
-    last_was_poll: bool,
+    in_event_loop: bool,
     sessions: Vec<Session>,
     log_fd: i32,
+    log_buf: String,
     frames: u64,
 }
 
 static SIM: Mutex<Option<Sim>> = Mutex::new(None);
+
+extern "C" fn flush_at_exit() {
+    let g = match SIM.try_lock() {
+        Ok(g) => Some(g),
+        Err(std::sync::TryLockError::Poisoned(p)) => Some(p.into_inner()),
+        Err(std::sync::TryLockError::WouldBlock) => None,
+    };
+    if let Some(mut g) = g {
+        if let Some(sim) = g.as_mut() {
+            sim.flush_log();
+        }
+    }
+}
 
 fn unhex(s: &str) -> Vec<u8> {
     (0..s.len() / 2).map(|i| u8::from_str_radix(&s[2 * i..2 * i + 2], 16).unwrap_or(0)).collect()
@@ -65,7 +80,7 @@ fn with_sim<T>(f: impl FnOnce(&mut Sim) -> T) -> T {
             Err(_) => -1,
         };
         let segs = sc.connects.iter().map(|c| c.segments.iter().map(|s| (s.at_us, unhex(&s.hex))).collect()).collect();
-        let mut sim = Sim {
+        let sim = Sim {
             sc,
             segs,
             now_us: 0,
@@ -75,11 +90,17 @@ fn with_sim<T>(f: impl FnOnce(&mut Sim) -> T) -> T {
             next_event: 0,
             iter: 0,
             coalesce_i: 0,
-            last_was_poll: false,
+            in_event_loop: false,
             sessions: vec![],
             log_fd,
+            log_buf: String::with_capacity(16 * 1024),
             frames: 0,
         };
+        // the log is buffered; whatever way the process ends normally (return from main, panic
+        // -> exit 101, process::exit), the rest is written out
+        unsafe {
+            libc::atexit(flush_at_exit);
+        }
         sim.publish_clock();
         *g = Some(sim);
     }
@@ -99,12 +120,22 @@ impl Sim {
     }
 
     fn log(&mut self, what: &str) {
+        use std::fmt::Write;
         self.seq += 1;
         if self.log_fd >= 0 {
-            let line = format!("{} {} {}\n", self.seq, self.now_us, what);
-            unsafe {
-                libc::write(self.log_fd, line.as_ptr().cast(), line.len());
+            let _ = writeln!(self.log_buf, "{} {} {}", self.seq, self.now_us, what);
+            if self.log_buf.len() > 12 * 1024 {
+                self.flush_log();
             }
+        }
+    }
+
+    fn flush_log(&mut self) {
+        if self.log_fd >= 0 && !self.log_buf.is_empty() {
+            unsafe {
+                libc::write(self.log_fd, self.log_buf.as_ptr().cast(), self.log_buf.len());
+            }
+            self.log_buf.clear();
         }
     }
 
@@ -112,6 +143,7 @@ impl Sim {
         self.steps += 1;
         if self.steps > self.sc.step_budget.max(1) {
             self.log("BUDGET");
+            self.flush_log();
             // a client that keeps calling without making progress: reported as a hang
             unsafe { libc::_exit(3) }
         }
@@ -125,6 +157,7 @@ impl Sim {
 /// Harness stop: the scenario has nothing left to deliver and the client would now wait forever.
 fn harness_stop(sim: &mut Sim) -> ! {
     sim.log("STOP");
+    sim.flush_log();
     // flush std's stdout buffer the normal way
     std::process::exit(0)
 }
@@ -145,7 +178,6 @@ pub mod net {
     fn do_connect(timeout: Option<Duration>) -> io::Result<TcpStream> {
         with_sim(|sim| {
             sim.step();
-            sim.last_was_poll = false;
             let i = sim.next_connect;
             if i >= sim.sc.connects.len() {
                 if sim.next_event >= sim.sc.events.len() {
@@ -176,7 +208,7 @@ pub mod net {
                     let t = sim.now_us + 500;
                     sim.advance_to(t);
                     let id = sim.sessions.len();
-                    sim.sessions.push(Session { idx: i, start_us: sim.now_us, seg: 0, off: 0, reads: 0, eintr_done: vec![], rst_sent: false, read_timeout_us: None, delivered: 0, eof_returns: 0 });
+                    sim.sessions.push(Session { idx: i, start_us: sim.now_us, seg: 0, off: 0, reads: 0, eintr_done: vec![], rst_sent: false, read_timeout_us: None, delivered: 0, eof_returns: 0, idle_timeouts: 0 });
                     sim.log(&format!("CONNECT accept session={id}"));
                     Ok(TcpStream { id })
                 }
@@ -203,8 +235,7 @@ pub mod net {
         fn sim_read(&self, buf: &mut [u8]) -> io::Result<usize> {
             with_sim(|sim| {
                 sim.step();
-                sim.last_was_poll = false;
-                let sid = self.id;
+                    let sid = self.id;
                 let ci = sim.sessions[sid].idx;
                 let call = sim.sessions[sid].reads;
                 // transient error injected on this read call (once)
@@ -297,8 +328,16 @@ pub mod net {
                     match (next, deadline) {
                         (Some(t), Some(d)) if t <= d => sim.advance_to(t),
                         (Some(t), None) => sim.advance_to(t),
-                        (_, Some(d)) => {
+                        (nx, Some(d)) => {
                             sim.advance_to(d);
+                            if nx.is_none() && sim.feed_exhausted() {
+                                // nothing will ever arrive or happen again: a client that just
+                                // keeps waiting (1090 does by design) is stopped here
+                                sim.sessions[sid].idle_timeouts += 1;
+                                if sim.sessions[sid].idle_timeouts > 25 {
+                                    harness_stop(sim);
+                                }
+                            }
                             sim.log("RD wouldblock");
                             // what a socket with SO_RCVTIMEO yields on Linux
                             return Err(io::Error::new(io::ErrorKind::WouldBlock, "simulated: read timed out"));
@@ -425,8 +464,9 @@ pub mod event {
     pub fn poll(timeout: Duration) -> io::Result<bool> {
         with_sim(|sim| {
             sim.step();
-            if !sim.last_was_poll {
-                // first poll after the client's draw: in-band frame marker (ratatui has flushed)
+            if !sim.in_event_loop {
+                // first poll after the client's draw (the previous poll returned false, or this is
+                // the first one): in-band frame marker (ratatui has flushed)
                 sim.frames += 1;
                 let marker = format!("\x1b]777;frame;{};{}\x07", sim.frames, sim.now_us);
                 unsafe {
@@ -442,18 +482,21 @@ pub mod event {
                 }
                 sim.iter += 1;
             }
-            sim.last_was_poll = true;
             let d = timeout.as_micros() as u64;
             match sim.sc.events.get(sim.next_event).map(|e| e.at_us) {
                 Some(t) if t <= sim.now_us + d => {
                     sim.advance_to(t);
                     sim.log("POLL 1");
+                    // the client reads the event and polls again before it draws
+                    sim.in_event_loop = true;
                     Ok(true)
                 }
                 _ => {
                     let t = sim.now_us + d;
                     sim.advance_to(t);
                     sim.log("POLL 0");
+                    // the client leaves its event loop; its next poll follows a draw
+                    sim.in_event_loop = false;
                     Ok(false)
                 }
             }
